@@ -63,10 +63,6 @@ def obs_embed(case):
     latent = bool(case["latent"])
     # inertness is a property of the word IN THIS TEXT ("zebra quarter to 8": the pattern "(a )?quarter"
     # matches the last letter of zebra): skip the case if any pattern touches a surrounding word
-    lo, hi = case["shift"], case["shift"] + len(case["base"])
-    for m in qa.CTP._match_regex(case["text"], qa.REGEX):
-        if m.mstart < lo - 1 or m.mend > hi + 1:
-            return []
     kw = {"relative_match_len": case["rel"]} if case.get("rel") else {}
     base, rb = e2e.parse_val(case["base"], ts, latent=latent, **kw)
     val, r = e2e.parse_val(case["text"], ts, latent=latent, **kw)
@@ -80,6 +76,15 @@ def obs_embed(case):
         # a grammar expression is resolved from all of its characters
         out.append({"val": base, "base": base, "checkspan": 1, "s": bs, "e": be, "xs": 0, "xe": len(case["base"])})
     return out
+
+
+def diag_embed(case, reject):
+    """Does a pattern match of the embedded text reach from the expression into a surrounding (inert) word?  The property
+    defines inertness on the word alone, so that IS a violation; the cause names the patterns (model identifiers)."""
+    lo, hi = case["shift"], case["shift"] + len(case["base"])
+    ids = sorted({qa.mid(int(m.id)) for m in qa.CTP._match_regex(case["text"], qa.REGEX)
+                  if (m.mstart < lo - 1 and m.mend > lo - 1) or (m.mend > hi + 1 and m.mstart < hi + 1)})
+    return {"cause": "pattern-reaches-into-neighbouring-word:" + ",".join(map(str, ids))} if ids else {"cause": "other"}
 
 
 STAGES = {"lattice": (obs_lattice, "LatticeTrace"), "embeddings": (obs_embed, "VariantTrace")}
@@ -164,7 +169,7 @@ def run(ctx):
             for rel in (0.95, 0.8, 0.5):
                 extra.append(dict(c, rel=rel, label=c["label"] + "/rel<1", full=0))
     cases += extra
-    core.run_stage(ctx, "embeddings", cases, obs_embed, "VariantTrace", sig_keys=("label",), nontrivial=lambda c: (c["text"], c["latent"], c.get("rel")))
+    core.run_stage(ctx, "embeddings", cases, obs_embed, "VariantTrace", sig_keys=("label",), diagnose=diag_embed, nontrivial=lambda c: (c["text"], c["latent"], c.get("rel")))
 
 
 def replay(ctx, rp):
